@@ -218,9 +218,12 @@ def run(scn):
         except AssertionError as e:       # the library refuses to construct this message
             return {'scn': scn, 'ev': ev, 'unconstructible': repr(e)}
         doc = obj.to_json()
-        via_encoder = json.loads(json.dumps(obj, cls=pjrpc.JSONEncoder))
         text = json.dumps(doc, cls=pjrpc.JSONEncoder)
-        ev.append({'ev': 'Ser', 'wire': a_doc(doc), 'enc_same': same_json(via_encoder, json.loads(text))})
+        try:
+            enc_same = same_json(json.loads(json.dumps(obj, cls=pjrpc.JSONEncoder)), json.loads(text))
+        except (TypeError, ValueError):       # the library encoder cannot encode the message object itself
+            enc_same = False
+        ev.append({'ev': 'Ser', 'wire': a_doc(doc), 'enc_same': enc_same})
         value = json.loads(text)
     else:
         value = json.loads(json.dumps(c_doc(scn['wire'])))
@@ -242,7 +245,8 @@ def main():
         import jsonvals
         jsonvals.randomize(int(os.environ['VERIF_RANDOMIZE']) + len(sys.argv[1]) + hash(os.path.basename(sys.argv[1])) % 1000)
     scns = json.load(open(sys.argv[1]))
-    traces = [run(s) for s in scns]
+    from _guard import guarded
+    traces = [guarded(run)(s) for s in scns]
     json.dump(traces, open(sys.argv[2], 'w'))
 
 
